@@ -39,7 +39,7 @@ CONSTANTS
   EmitCases,    \* print the cases (Emit)
   EmitMod, EmitRem, \* export the configurations of one residue class only (all are model-checked)
   Fault         \* "none"; anything else plants a fault in the machine to show that the properties can fail
-                \* (MC_fault_*.cfg): "open-noresponse" | "open-fail" | "first-binding" | "drop-warnings" | "no-patchtype" | "drop-uid"
+                \* (MC_fault_*.cfg): "open-noresponse" | "open-fail" | "open-signal" | "first-binding" | "drop-warnings" | "no-patchtype" | "drop-uid"
 
 VARIABLES cfg,     \* configuration: set of bindings [hook, kind, n]           (input)
           req,     \* [segs, q, pclass, body, uid]                              (input)
@@ -115,6 +115,8 @@ Configs == {c \in SUBSET Pool :
 Registry(c) == [k \in {<<ConfId, Wid(b)>> : b \in c} |-> CHOOSE b \in c : k = <<ConfId, Wid(b)>>]
 
 (* ------------------------------- outcomes ------------------------------ *)
+(* exit: the exit code of the hook process; a negative value -N stands for "terminated by signal N" after     *)
+(* the response file was written (the hook helper sends the signal to itself).                              *)
 BadClasses == {"absent", "blank", "trunc", "badtype", "array", "badb64", "badwarn", "null", "emptyobj"}
 Plain(e, rc) == [exit |-> e, rc |-> rc, allowed |-> FALSE, msg |-> FALSE, warn |-> FALSE, patch |-> FALSE]
 Valid(e, a, m, w, p) == [exit |-> e, rc |-> "valid", allowed |-> a, msg |-> m, warn |-> w, patch |-> p]
@@ -125,6 +127,9 @@ Outcomes(kind) ==
   \cup {Valid(0, a, m, w, p) : a \in BOOLEAN, m \in BOOLEAN, w \in BOOLEAN,
                                p \in (IF kind = "mutating" THEN BOOLEAN ELSE {FALSE})}
   \cup {Plain(1, "absent"), Plain(1, "trunc"), Valid(1, TRUE, FALSE, FALSE, FALSE), Valid(1, TRUE, FALSE, TRUE, kind = "mutating")}
+  \* exit = -N: the process wrote its response file and was then terminated by signal N (9 = SIGKILL: OOM killer,
+  \* 15 = SIGTERM: watchdog, kill) - it "did not exit with zero" although there is no exit code above zero either
+  \cup {Valid(-9, TRUE, FALSE, FALSE, FALSE), Valid(-15, TRUE, FALSE, TRUE, kind = "mutating")}
 
 MsgText  == "denied: replicas above limit (policy p-1)"
 Warn1    == "deprecated field spec.image"
@@ -233,7 +238,7 @@ S_RunHook ==
   /\ pc = "run"
   /\ ran' = Append(ran, [hook |-> task.hook, binding |-> Name(task), type |-> TypeOf[task.kind], uid |-> req.uid])
   /\ LET o == plan[task.hook]
-     IN result' = IF o.exit # 0 THEN [kind |-> "fail"]                      \* hook failed
+     IN result' = IF (IF Fault = "open-signal" THEN o.exit > 0 ELSE o.exit # 0) THEN [kind |-> "fail"]                      \* hook failed (exit code > 0 or killed by a signal)
                   ELSE IF o.rc = "absent" THEN [kind |-> "noresponse"]     \* file left empty
                   ELSE IF o.rc # "valid" THEN [kind |-> "fail"]            \* bad response fails the run
                   ELSE [kind |-> "response", o |-> o]
